@@ -184,6 +184,11 @@ structure Meta where
 def correctMeta (src : Meta) (dstDimensions dstOrigin : List Rat) : Meta :=
   { src with dimensions := dstDimensions, origin := dstOrigin }
 
+/-- `CoordinateTransformation.__call__`: `type(image)(affine_correction(image).img, **correct_metadata(image))` — the
+result has the class of the input (`kind`: 0 Image, 1 ScalarImage, 2 OpticalImage) and the corrected metadata -/
+def coordTransfCall (kind : Nat) (src : Meta) (dstDimensions dstOrigin : List Rat) : Nat × Meta :=
+  (kind, correctMeta src dstDimensions dstOrigin)
+
 /-- distance to the nearest integer -/
 def fracDist (q : Rat) : Rat :=
   let f := q - (q.floor : Rat)
